@@ -119,7 +119,7 @@ func (db *SpecDB) pureExt(fn *ssa.Function) bool {
 func (db *SpecDB) detExt(fn *ssa.Function) bool {
 	pp := pkgPathOf(fn)
 	switch pp {
-	case "strings", "strconv", "slices", "bytes", "path", "path/filepath", "unicode", "unicode/utf8", "encoding/base64", "encoding/hex", "crypto/md5", "net/netip", "math":
+	case "strings", "strconv", "slices", "bytes", "cmp", "path", "path/filepath", "unicode", "unicode/utf8", "encoding/base64", "encoding/hex", "crypto/md5", "net/netip", "math":
 		// functions taking pointers / writers are not value functions
 		for _, p := range fn.Params {
 			switch types.Unalias(p.Type()).Underlying().(type) {
